@@ -88,7 +88,7 @@ func (e *Env) sh() *envShared {
 
 // forCase returns a view of the environment for one case. Sandbox directories of a case get a name that depends
 // on the case only (so that a confirming re-run and a replay see the same kind of path): one case in eight works
-// below a directory with a blank in its name, one in eight below one with non-ASCII characters.
+// below a directory with a blank in its name, one in eight below one with non-ASCII characters, one in sixteen below one with square brackets.
 func (e *Env) forCase(c Case) *Env {
 	v := *e
 	v.shared = e.sh()
@@ -118,6 +118,10 @@ func (e *Env) TempDir() string {
 		name += " with blank"
 	case 6:
 		name += "-\u00e9\u65e5"
+	case 1:
+		if e.caseTag%16 == 1 {
+			name += " [v4]" // characters a glob pattern would interpret
+		}
 	}
 	d := filepath.Join(e.Scratch, name)
 	_ = os.MkdirAll(d, 0o755)
